@@ -63,7 +63,26 @@ func drainReport(rep *helper.Report) drained {
 	return d
 }
 
-func dayIndex(t time.Time) int { return int(t.Sub(reg.Day(0)).Hours() / 24) }
+// dayIndex maps a snapshot date (midnight in its own zone) back to its index.
+func dayIndex(t time.Time) int {
+	y, m, d := t.Date()
+	return int(time.Date(y, m, d, 0, 0, 0, 0, time.UTC).Sub(reg.Day(0)).Hours() / 24)
+}
+
+// inZone re-dates snapshots to local midnight of the same calendar day in
+// another time zone (exchanges east and west of Greenwich).
+func inZone(snaps []*asset.Snapshot, loc *time.Location) []*asset.Snapshot {
+	out := make([]*asset.Snapshot, len(snaps))
+	for i, s := range snaps {
+		c := *s
+		y, m, d := s.Date.Date()
+		c.Date = time.Date(y, m, d, 0, 0, 0, 0, loc)
+		out[i] = &c
+	}
+	return out
+}
+
+var c14Zones = []*time.Location{time.UTC, time.FixedZone("UTC+9", 9*3600), time.FixedZone("UTC-5", -5*3600), time.FixedZone("UTC+1", 3600)}
 
 // c14Key returns the known-finding key for a column that yields `extra`
 // values more than there are date rows: the two strategies that shift by the
@@ -71,20 +90,20 @@ func dayIndex(t time.Time) int { return int(t.Sub(reg.Day(0)).Hours() / 24) }
 // (and the annotation, which inherits the extra action) one row longer than
 // the date axis, which they skip by the period.
 func c14Key(stratName string, extra int) string {
-	switch {
-	case strings.HasPrefix(stratName, "trend.AlligatorStrategy ") && extra == 1:
-		return "trend.AlligatorStrategy:alligator-shift-by-period"
-	case strings.HasPrefix(stratName, "trend.SmmaStrategy ") && extra == 1:
-		return "trend.SmmaStrategy:smma-shift-by-period"
+	if extra == 1 {
+		// the strategy itself, or an Inverse decorator over it (which passes the
+		// n+1 actions through to its annotation and outcome columns)
+		return plusOneKey(stratName)
 	}
 	return ""
 }
 
 func c14Check(cc *run.Case, ns namedStrat, class string, n int) bool {
 	bars := gen.Bars(cc.R, class, n)
-	snaps := reg.Snaps(bars)
-	cc.Desc(map[string]any{"strategy": ns.Name, "class": class, "n": n, "w_s": ns.Warm})
-	detail := map[string]any{"strategy": ns.Name, "class": class, "n": n, "w_s": ns.Warm}
+	zone := c14Zones[cc.R.Intn(len(c14Zones))]
+	snaps := inZone(reg.Snaps(bars), zone)
+	cc.Desc(map[string]any{"strategy": ns.Name, "class": class, "n": n, "w_s": ns.Warm, "zone": zone.String()})
+	detail := map[string]any{"strategy": ns.Name, "class": class, "n": n, "w_s": ns.Warm, "zone": zone.String()}
 	fail := func(key, msg string) bool {
 		cc.Viol(key, fmt.Sprintf("%s report over %d snapshots: %s", ns.Name, n, msg), detail)
 		return key != ""
@@ -182,6 +201,9 @@ func c14Check(cc *run.Case, ns namedStrat, class string, n int) bool {
 		if len(cells) < 1+len(d.Cols) {
 			return fail("", fmt.Sprintf("rendered row %d has %d cells for %d columns", k, len(cells)-1, len(d.Cols)))
 		}
+		if want := fmt.Sprintf("newDate(%q)", d.Dates[k].Format(helper.DefaultReportDateFormat)); cells[0] != want {
+			return fail("", fmt.Sprintf("rendered row %d is labelled %s, the date of that row is %s (snapshot dates in zone %s)", k, cells[0], want, zone))
+		}
 		for i := range d.Cols {
 			want := d.Cols[i][k]
 			if d.Roles[i] == "annotation" {
@@ -210,7 +232,7 @@ func c14Check(cc *run.Case, ns namedStrat, class string, n int) bool {
 		minLag[i] = math.MaxInt
 	}
 	probe := func(p, kind int) bool {
-		alt := drainReport(ns.New().Report(helper.SliceToChan(reg.Snaps(perturb(bars, p, kind, cc.R)))))
+		alt := drainReport(ns.New().Report(helper.SliceToChan(inZone(reg.Snaps(perturb(bars, p, kind, cc.R)), zone))))
 		cc.Count("front_probes", 1)
 		for i := range d.Cols {
 			if d.Roles[i] != "data" || d.Names[i] == "Outcome" || i >= len(alt.Cols) {
